@@ -17,6 +17,13 @@
 (*   - equality with the specification's own outcome (which of two         *)
 (*     possible trunks, exact order) -- a difference goes to `drift`       *)
 (*     (MODEL-DRIFT, never an accusation).                                 *)
+(* A trace of kind "net" is one history on a LIVE netlist (section 4 of      *)
+(* module Stog): load, then moves / mirrors / assignments made in place     *)
+(* through the public objects, then Module.create_stog() or                 *)
+(* Netlist.create_stogs().  The operations are consumed by MoveOn, MirrorOn,*)
+(* AssignOn, RecModOn, RecAllOn; after the load and after every recognition *)
+(* `obs` holds, per module, has_stog and the rectangles with their roles,   *)
+(* judged with the same clauses against the module's CURRENT geometry.      *)
 (* The verdict is total: Step never blocks, Done prints one VERDICT line.  *)
 (***************************************************************************)
 EXTENDS Stog, IOUtils
@@ -28,8 +35,12 @@ tvars == <<vars, tid, l, fails, drift>>
 
 T == Batch[tid]
 
+IsNet == T.kind = "net"
 TraceInit == /\ tid \in 1..Len(Batch) /\ l = 1 /\ fails = {} /\ drift = {}
-             /\ pc = "build" /\ rects = <<>> /\ roles = <<>> /\ given = NoCall /\ result = -1
+             /\ rects = <<>> /\ roles = <<>> /\ given = NoCall /\ result = -1 /\ ops = <<>>
+             /\ IF Batch[tid].kind = "net"
+                THEN pc = "net" /\ net = [m \in DOMAIN Batch[tid].events[1].mods |-> Loaded(Batch[tid].events[1].mods[m])]
+                ELSE pc = "build" /\ net = <<>>
 
 \* does the observation coincide with what the specification computed (primed variables)?
 SameAsModel(e) == /\ e.ok = result'
@@ -37,13 +48,28 @@ SameAsModel(e) == /\ e.ok = result'
                   /\ OutRole(e.out) = roles'
                   /\ (\A k \in DOMAIN e.out : e.out[k][6] # 0) => OutSrc(e.out) = given'.src
 
+\* the observation o = [ok, out] of one module judged against its current geometry `geo` (the rectangles the model
+\* holds for it when the recognition is called)
+ModuleFails(geo, o) == LET cl == Clauses(geo, o.ok, o.out) IN { c \in ClauseNames : ~cl[c] }
+Judged(e, covered) == UNION { { <<l, c>> : c \in ModuleFails(net[m].rects, e.obs[m]) } : m \in covered }
+NetOp == LET e == T.events[l] IN
+  CASE e.op = "load"   -> UNCHANGED <<net, pc, rects, roles, given, result>> /\ fails' = fails \cup Judged(e, DOMAIN net)
+    [] e.op = "move"   -> MoveOn(e.m, e.k, <<e.dx, e.dy>>) /\ UNCHANGED fails
+    [] e.op = "mirror" -> MirrorOn(e.m) /\ UNCHANGED fails
+    [] e.op = "assign" -> AssignOn(e.m, e.rects) /\ UNCHANGED fails
+    [] e.op = "rec"    -> RecModOn(e.m) /\ fails' = fails \cup Judged(e, {e.m})
+    [] OTHER           -> RecAllOn /\ fails' = fails \cup Judged(e, DOMAIN net)
+
 Step == /\ l <= Len(T.events)
-        /\ LET e == T.events[l]
-               cl == Clauses(e.in, e.ok, e.out)
-           IN /\ RecogniseOn(e.in, e.pre)
-              /\ fails' = fails \cup { <<l, c>> : c \in { c \in ClauseNames : ~cl[c] } }
-              /\ drift' = IF SameAsModel(e) THEN drift ELSE drift \cup { <<l, "trunk_choice">> }
-        /\ pc' = "done" /\ l' = l + 1 /\ UNCHANGED tid
+        /\ IF IsNet
+           THEN NetOp /\ UNCHANGED <<drift, ops>>
+           ELSE LET e == T.events[l]
+                    cl == Clauses(e.in, e.ok, e.out)
+                IN /\ RecogniseOn(e.in, e.pre)
+                   /\ fails' = fails \cup { <<l, c>> : c \in { c \in ClauseNames : ~cl[c] } }
+                   /\ drift' = IF SameAsModel(e) THEN drift ELSE drift \cup { <<l, "trunk_choice">> }
+                   /\ pc' = "done" /\ UNCHANGED nvars
+        /\ l' = l + 1 /\ UNCHANGED tid
 
 Done == /\ l = Len(T.events) + 1
         /\ l' = l + 1
